@@ -696,17 +696,19 @@ def evidence_info():
             "one evaluation = one seeded history: 1-3 callers interleaved at operation boundaries parse entries of a pool of 5-15 well-formed spec "
             "structures (condition specs incl. and/or/xor lists, aliases, type names, data-path arguments in scalar/list/mapping position, escaped \\\\path keys; "
             "part specs in long and shorthand forms; part lists; path specs with suffixes; rule specs with cast and every doc shape; rule lists) 2-12 times "
-            "through every entry point; sub-structures are shared between specs through a sharing table (same Python object). distinct = distinct (world, "
+            "through every entry point (incl. from_yaml / from_yaml_file on YAML text with anchors); sub-structures are shared between specs, and inside one spec, through a sharing table (same Python object). distinct = distinct (world, "
             "programs, interleaving) digests; non-trivial = the history parses some structure at least twice or the pool contains an aliased sub-structure."
         ),
         "components": {
-            "real": ["all of valida from the working tree", "CPython 3.12"],
+            "real": ["all of valida from the working tree", "ruamel.yaml (dump and safe load)", "CPython 3.12"],
             "simulated": ["the order in which callers' parse operations are applied to the shared spec structures"],
             "shim": ["harness-installed __setattr__ write tracer"],
-            "stubbed": ["YAML loading: spec structures are built directly as the native containers that ruamel's safe loader would produce (anchors = shared objects)"],
+            "real_io": ["rule lists that are plain YAML data are also dumped with ruamel (shared sub-structures become anchors / aliases) and parsed through Schema.from_yaml and Schema.from_yaml_file (a real temporary file - valida's only I/O seam); the reference is the loaded text with every alias expanded"],
+            "stubbed": [],
         },
         "assumptions": [
-            "equality of results is only demanded where parsing two fresh deep copies of the spec gives equal objects (otherwise == is unusable for that spec: C14's business) - counted as parses_where_equality_unusable",
+            "two parses of two fresh deep copies of a spec must compare equal (==); if they do not, that is reported as a violation (the property's own wording), counted as parses_where_equality_unusable",
+            "reference computations run with valida's module-level mutable state put back to import time (isolation.pristine_state)",
             "behavioural equality is checked on the world's 2-3 probe documents only",
             "operation-boundary histories only",
         ],
